@@ -747,5 +747,96 @@ def shrink(case, fails):
         else: i += 1
     return cur
 
+# ------------------------------------------------------------------ Coq emission
+def _oq(v):
+    """float / Fraction / None -> option Q literal"""
+    return "None" if v is None else "(Some %s)" % E.q(Fraction(v))
+def _oqh(h): return _oq(_fr(h))
+def _T(rows, t):
+    """row-major -> column-major (t columns even when there is no row)"""
+    return [[r[j] for r in rows] for j in range(t)]
+def _colsf(rows, t): return E.lst2(_T(rows, t), _oq)
+def _colsh(rows, t): return E.lst2(_T(rows, t), _oqh)
+def _lab(l): return E.opt(l, lambda x: E.lst([-1 if v is None else v for v in x], E.z))
+def _prm(loc, sc): return E.lst(list(zip(loc, sc)), lambda p: "(%s, %s)" % (_oqh(p[0]), _oqh(p[1])))
+def _idx(o): return "(IInt %s)" % E.z(o) if isinstance(o, int) else "(IList %s)" % E.lst(o, E.z)
+
+def _stat(v):
+    return "None" if isinstance(v, dict) else "(Some %s)" % E.lst(v, _oqh)
+def _snap(s, t):
+    st = s["stats"]
+    parts = [_colsh(s["mat"], t), E.lst(s["loc"], _oqh), E.lst(s["scale"], _oqh), _colsh(s["unscale"], t), _lab(s["taxa"]), _lab(s["grp"]), E.nat(s["shape"][0])]
+    for k in ("tmax", "tmin", "tmean", "trange", "tstd", "tvar"):
+        for u in (0, 1): parts.append(_stat(st["%s%d" % (k, u)]))
+    for k in ("targmax", "targmin"):
+        parts.append("None" if isinstance(st[k], dict) else "(Some %s)" % E.lst(st[k], E.z))
+    return "(mksnap %s)" % "\n      ".join(parts)
+def _obs(s, t):
+    return "ObsErr" if "exc" in s else "(ObsOk %s)" % _snap(s, t)
+
+def _opd(op, rec, t, cls):
+    if op["as"] == "nd": bvp = "None"
+    else:
+        if "vparams" not in rec: raise ValueError("operand matrix could not be built")
+        bvp = "(Some %s)" % _prm(rec["vparams"]["loc"], rec["vparams"]["scale"])
+    return "(mkopd %s %s %s %s %s %s %s %s)" % (_colsf(op["vals"], t), E.nat(len(op["vals"])), bvp, E.b((op["as"], cls) in SUBCLASS),
+                                                 _lab(op.get("vtaxa")), _lab(op.get("vgrp")), _lab(op["ataxa"]), _lab(op["agrp"]))
+
+def _emit_bv(case, out):
+    t = case["t"]; cls = case["cls"]; steps = out["steps"]
+    r0 = "(mkraw %s %s %s %s)" % (_colsf(case["raw"], t), E.nat(len(case["raw"])), _lab(case["taxa"]), _lab(case["grp"]))
+    if "exc" in steps[0]: return "(case_check %s [] ObsErr [])" % r0
+    items = []
+    for op, rec in zip(case["ops"], steps[1:]):
+        nm = op["op"]
+        if nm == "select": o = "(OSelect %s)" % E.lst(op["ix"], E.z)
+        elif nm == "delete": o = "(ODelete %s)" % _idx(op["obj"])
+        elif nm == "remove": o = "(ORemove %s)" % _idx(op["obj"])
+        elif nm == "insert": o = "(OInsert %s %s)" % (_idx(op["obj"]), _opd(op, rec, t, cls))
+        elif nm == "incorp": o = "(OIncorp %s %s)" % (_idx(op["obj"]), _opd(op, rec, t, cls))
+        elif nm == "adjoin": o = "(OAdjoin %s)" % _opd(op, rec, t, cls)
+        elif nm == "append": o = "(OAppend %s)" % _opd(op, rec, t, cls)
+        else:
+            if "oparams" not in rec: raise ValueError("concat operands could not be built")
+            ps = ["(mkpart %s %s %s %s %s)" % (_colsf(q["raw"], t), E.nat(len(q["raw"])), _prm(pp["loc"], pp["scale"]), _lab(q["taxa"]), _lab(q["grp"]))
+                  for q, pp in zip(op["others"], rec["oparams"])]
+            base = cls == "B" and all((q["cls"], cls) in SUBCLASS for q in op["others"])
+            o = "(OConcat %s %s %s)" % (E.b(base), E.lst(ps[:op["self_pos"]], str), E.lst(ps[op["self_pos"]:], str))
+        prm = "[]" if "exc" in rec else _prm(rec["loc"], rec["scale"])
+        items.append("(%s,\n    %s,\n    %s)" % (o, prm, _obs(rec, t)))
+    return "(case_check %s\n  %s\n  %s\n  [%s])" % (r0, _prm(steps[0]["loc"], steps[0]["scale"]), _obs(steps[0], t), ";\n   ".join(items))
+
+def _emit_scaled(case, out):
+    t = case["t"]; steps = out["steps"]
+    if any("exc" in s for s in steps): return "false"
+    L = case["loc"] if isinstance(case["loc"], list) else [case["loc"]] * t
+    S = case["sc"] if isinstance(case["sc"], list) else [case["sc"]] * t
+    cols = _T(case["raw"], t)
+    init = E.lst(list(range(t)), lambda j: "(mkcol %s %s %s)" % (E.lst(cols[j], _oq), _oq(L[j]), _oq(S[j])))
+    items = []
+    for k, op in enumerate(case["ops"], 1):
+        prev, s = steps[k - 1], steps[k]
+        if op["op"] == "transform": o = "(STransform %s)" % _colsf(op["m"], t)
+        elif op["op"] == "untransform": o = "(SUntransform %s)" % _colsf(op["m"], t)
+        elif op["op"] == "unscale": o = "(SUnscale %s)" % E.b(op["inplace"])
+        else:
+            if op["inplace"]: prm = _prm(s["loc"], s["scale"])
+            else:
+                # the new parameters are not observable: supply the correctly rounded mean / standard deviation of the previous
+                # state's raw values; Coq checks them against the exact nanmean / nanvar like any other given parameter
+                mat = [[_fr(h) for h in r] for r in prev["mat"]]; loc = [_fr(h) for h in prev["loc"]]; sc = [_fr(h) for h in prev["scale"]]
+                ps = []
+                for j in range(t):
+                    vals = [r[j] * sc[j] + loc[j] for r in mat if r[j] is not None]
+                    if not vals: ps.append((None, None)); continue
+                    mean = sum(vals) / len(vals); var = sum((v - mean) ** 2 for v in vals) / len(vals)
+                    ps.append((float(mean), 1.0 if var == 0 else math.sqrt(float(var))))
+                prm = E.lst(ps, lambda p: "(%s, %s)" % (_oq(p[0]), _oq(p[1])))
+            o = "(SRescale %s %s)" % (E.b(op["inplace"]), prm)
+        nr = len(s["ret"])
+        items.append("(%s, (%s, (%s, (%s, %s))))" % (o, _colsh(s["ret"], t), _colsh(s["mat"], t), E.lst(s["loc"], _oqh), E.lst(s["scale"], _oqh)))
+    return "(srun_check %s\n  [%s])" % (init, ";\n   ".join(items))
+
 def emit_case(case, out):
-    return None
+    if "exc" in out: return "false"
+    return _emit_bv(case, out) if case["kind"] == "bv" else _emit_scaled(case, out)
